@@ -949,15 +949,20 @@ def build_streams(chk, names, sizes):
     fam['charmap'] = (lines, outs)
     # ---- the binding under a scripted iconv
     lines, outs = [], []
+    glines = []        # the twin stream: the same inputs through decode / encode as REGENERATED from lib/iconv.py (Generated.IconvDl)
     for n, rounds in G.iconv_scripts(rng, sizes['scripts'], decode=True):
         data = bytes(rng.randrange(256) if rng.random() < 0.6 else rng.randrange(0x20, 0x7f) for _ in range(n))
         lines.append(f'charset decloop {hexbytes(data)} 60 {script_text(rounds)}'); outs.append(impl_decloop(data, rounds)[0])
+        glines.append(f'charset gdecloop {hexbytes(data)} 60 {script_text(rounds)}')
     for n, rounds in G.iconv_scripts(rng, sizes['scripts'], decode=False):
         text = ''.join(rng.choice('ab€ж中\U0001f600') for _ in range(n))
         lines.append(f'charset encloop {n} 60 {script_text(rounds)}'); outs.append(impl_encloop(text, rounds)[0])
+        glines.append(f'charset gencloop {hexchars(text)} 60 {script_text(rounds)}')
     fam['loop-scripted'] = (lines, outs)
+    fam['loop-scripted-generated'] = (glines, list(outs))
     # ---- the binding under the real iconv; the model runs the rounds a contract-abiding iconv would produce
     lines, outs = [], []
+    glines = []
     R = ref()
     if R.ok:
         for enc in REAL_LOOP_ENCODINGS:
@@ -976,6 +981,7 @@ def build_streams(chk, names, sizes):
                 rounds = [tuple(r) for r in sess.recorded if r[0] is not None or r[1] is not None]
                 rounds = [(r[0] if r[0] is not None else 0,) + r[1:] for r in rounds]
                 lines.append(f'charset decloop {hexbytes(b)} 60 {script_text(rounds)}'); outs.append(out)
+                glines.append(f'charset gdecloop {hexbytes(b)} 60 {script_text(rounds)}')
             for t in rng.sample(G.texts(rng, 'abcжяაბ中文한ạ€é', sizes['real_loop']), min(sizes['real_loop'], 300)):
                 if not t:
                     continue
@@ -987,7 +993,9 @@ def build_streams(chk, names, sizes):
                 rounds = [tuple(r) for r in sess.recorded if r[0] is not None or r[1] is not None]
                 rounds = [(r[0] if r[0] is not None else 0,) + r[1:] for r in rounds]
                 lines.append(f'charset encloop {len(t)} 60 {script_text(rounds)}'); outs.append(out)
+                glines.append(f'charset gencloop {hexchars(t)} 60 {script_text(rounds)}')
     fam['loop-real'] = (lines, outs)
+    fam['loop-real-generated'] = (glines, list(outs))
     # ---- encodings.decode, the decode of every loader
     lines, outs = [], []
     seen_codecs = {}
@@ -1158,11 +1166,13 @@ def build_streams(chk, names, sizes):
     fam['check'] = (lines, outs)
     return fam
 
-def run_streams(chk, fam):
+def run_streams(chk, fam, generated_ok=True):
     dis = {}
     for name, (lines, outs) in fam.items():
         if not lines:
             continue
+        if name.endswith('-generated') and not generated_ok:
+            continue          # the regenerated definitions did not build: the tie is already in chk.broken
         d, model = chk.stream('charset-' + name, lines, outs)
         dis[name] = [(lines[i], outs[i], model[i]) for i in d]
     return dis
